@@ -12,7 +12,8 @@ for d in sorted(glob.glob("/verif/seeded/C*m[0-9]") + glob.glob("/verif/seeded/C
             if "refactor" in meta.get("kind", ""):
                 res[t] = "FALSE ALARM (exit 1)" if r.get("exit") == 1 else ("pass (exit 0)" if r.get("exit") == 0 else "inconclusive (exit 2)")
             else:
-                res[t] = "DETECTED" if r.get("exit") == 1 else ("missed (exit 0)" if r.get("exit") == 0 else "inconclusive (exit 2)")
+                has_line = any(l.startswith("VIOLATION") for l in r.get("lines", []))
+                res[t] = ("DETECTED" if has_line else "exit 1 without a VIOLATION line (replay step crashed before the round-4 repair, see DESIGN A.5)") if r.get("exit") == 1 else ("missed (exit 0)" if r.get("exit") == 0 else "inconclusive (exit 2)")
             res[t + "_lines"] = r.get("lines", [])[:2]
             res[t + "_wall"] = r.get("wall_s")
     # record in meta.json what was run against this change and what it said
